@@ -35,11 +35,46 @@ void harness(void) {
   OSMT_REACH("return");
 }
 '''
+H_IND = '''/* inductive in the history: an ARBITRARY consistent store (3 leaves, up to 3 applications, every application registered under its canonical key in the map of its
+   symbol, keys pairwise different), then ONE call of mkFun */
+static struct PTRef call(t_u32 s, t_int n, t_u32 a0, t_u32 a1) {
+  struct vec_PTRef v; v.data = (struct PTRef *)0; v.sz = 0; v.cap = 0; vec_PTRef__capacity__int(&v, 2); v.data[0].x = a0; v.data[1].x = a1; v.sz = n;
+  struct SymRef sy; sy.x = s; return Logic__mkFun((struct Logic *)0, sy, &v); }
+static t_uchar map_of(t_u32 s) { return s == 0 ? MAP_CTERM : (h_sym[s].boolop ? MAP_BOOL : MAP_CPLX); }
+void harness(void) {
+  h_sym[0].nargs = 0; h_sym[1].nargs = 2; h_sym[2].nargs = 2; h_sym[2].commutes = 1; h_sym[2].left_assoc = 1; h_sym[3].nargs = 2; h_sym[3].boolop = 1; h_sym[3].left_assoc = 1; h_sym[3].commutes = 1;
+  g_nterms = 3; g_ntab = 0; for (int i = 0; i < 3; i++) { g_term[i].sym = 99; g_term[i].n = 0; }
+  int napp = nondet_uchar() % 4;
+  for (int i = 0; i < 3; i++) if (i < napp) {
+    t_u32 s = nondet_uchar() & 3; t_u32 a = nondet_uchar() % (3 + i), b = nondet_uchar() % (3 + i); t_int n = s == 0 ? 0 : 2; if (n == 0) { a = 0; b = 0; }
+    if (n == 2 && h_sym[s].commutes && !h_sym[s].boolop) __CPROVER_assume(a <= b);           /* canonical argument order of a commutative non-Boolean symbol */
+    t_u32 pk[3] = { a, b, 0 }; __CPROVER_assume(tab_find(map_of(s), s, n, pk) < 0);            /* keys pairwise different */
+    struct tcontent *c = &g_term[g_nterms]; c->sym = s; c->n = n; c->a[0] = a; c->a[1] = b; c->a[2] = 0;
+    struct kentry *e = &g_tab[g_ntab]; e->map = map_of(s); e->key = *c; e->term = (t_u32)g_nterms; g_nterms++; g_ntab++; }
+  t_int before = g_nterms, tabbefore = g_ntab;
+  t_u32 s1 = nondet_uchar() & 3, a1 = nondet_uchar() % (t_uchar)before, b1 = nondet_uchar() % (t_uchar)before; t_int n1 = s1 == 0 ? 0 : 2; if (n1 == 0) { a1 = 0; b1 = 0; }
+  /* the canonical key of the request, and the term (if any) that already has it */
+  t_u32 k0 = a1, k1 = b1; if (n1 == 2 && h_sym[s1].commutes && !h_sym[s1].boolop && k0 > k1) { k0 = b1; k1 = a1; }
+  t_u32 key[3] = { k0, k1, 0 }; t_int found = tab_find(map_of(s1), s1, n1, key);
+  struct PTRef r = call(s1, n1, a1, b1);
+  __CPROVER_assert(!__osmt_thrown, "a well-formed application is accepted");
+  if (found >= 0) { __CPROVER_assert(r.x == g_tab[found].term && g_nterms == before && g_ntab == tabbefore, "an application that exists is returned as it is: no new term, no new map entry"); }
+  else { __CPROVER_assert(r.x == (t_u32)before && g_nterms == before + 1 && g_ntab == tabbefore + 1, "an application that does not exist yet becomes exactly one new term (the newest) with one map entry");
+         t_int where = tab_find(map_of(s1), s1, n1, key); __CPROVER_assert(where >= 0 && g_tab[where >= 0 ? where : 0].term == r.x, "the new term is registered in the map of its symbol under the canonical key"); }
+  struct tcontent *c = &g_term[r.x < NT ? r.x : 0];
+  __CPROVER_assert(same_content(c, s1, n1, key), "the returned term is the application of the symbol to the arguments (canonical order)");
+  OSMT_REACH("return");
+}
+'''
 def jobs(tier):
     return [Job('mkFun.R', 'src/logics/Logic.cc', 'opensmt::Logic::mkFun', tier='R', header='contracts/C28/hashcons.h', harness=H, enforce=False, pre_includes=('stubs/gmp_types.h', 'stubs/std_types.h'),
                 stubs=STUBS, opaque=('opensmt::Logic', 'opensmt::PtStore', 'opensmt::SymStore', 'opensmt::Symbol'), unwindset=('tab_find.0:11',), default_unwind=5, min_obligations=5, object_bits=12,
                 bounded_note='sequences of at most three applications over four symbols and three existing terms',
-                proves='mkFun returns the existing term for an application that was built before and a new, newer term otherwise')]
+                proves='mkFun returns the existing term for an application that was built before and a new, newer term otherwise'),
+            Job('mkFun_invariant.R', 'src/logics/Logic.cc', 'opensmt::Logic::mkFun', tier='R', header='contracts/C28/hashcons.h', harness=H_IND, enforce=False, pre_includes=('stubs/gmp_types.h', 'stubs/std_types.h'),
+                stubs=STUBS, opaque=('opensmt::Logic', 'opensmt::PtStore', 'opensmt::SymStore', 'opensmt::Symbol'), unwindset=('tab_find.0:11',), default_unwind=5, min_obligations=5, object_bits=12,
+                bounded_note='inductive in the history: any consistent store with at most 3 applications over 3 leaves, then one call',
+                proves='from any consistent store, mkFun returns the existing term iff the canonical key exists, otherwise creates exactly one newest term and registers it under that key')]
 def info(tier, results):
     return {'level': 'other', 'trusted_base': ['clang 14 AST', 'osmt2c lowering', 'CBMC 6.11'],
             'assumptions': ['PtStore::hasXKey/getFromXMap/addToXMap behave as maps from (symbol, argument list) to terms; PtStore::newTerm creates the next term id with the given content (stubs of contracts/C28/hashcons.h)',
